@@ -291,11 +291,13 @@ pub fn run_mut_program(p: &Value, out: &mut String) {
         let mut rn: i64 = 0;
         let mut flag = true;
         let mut rv: Vec<u8> = vec![];
+        crate::intent(out, i + 1, name, m, enc(n));
         let r = catch_unwind(AssertUnwindSafe(|| {
             let b: &mut dyn Sink = &mut **root.as_mut().unwrap();
             match name {
-                "remaining_mut" => rn = enc(b.remaining_mut()),
-                "has_remaining_mut" => flag = b.has_remaining_mut(),
+                // (the node's own method, not the `&mut T` forwarder: see main.rs)
+                "remaining_mut" => rn = enc(BufMut::remaining_mut(&*b)),
+                "has_remaining_mut" => flag = BufMut::has_remaining_mut(&*b),
                 "chunk_mut_len" => {
                     rn = enc(b.chunk_mut().len());
                 }
@@ -339,6 +341,7 @@ pub fn run_mut_program(p: &Value, out: &mut String) {
                 _ => panic!("unknown op {}", name),
             }
         }));
+        crate::op_done();
         let outk = if r.is_ok() { "ok" } else { "panic" };
         let _ = write!(out, "{{\"i\":{},\"op\":\"{}\",\"path\":{},\"m\":\"{}\",\"n\":{},\"val\":{},\"out\":\"{}\",\"res\":{{\"k\":\"none\",\"n\":{},\"req\":0,\"avail\":0,\"flag\":{},\"v\":", i + 1, name, path_json(o), m, enc(n), o["val"].as_u64().unwrap_or(0), outk, rn, flag);
         jbytes(out, &rv);
